@@ -9,6 +9,8 @@
 (*              pw = the password whose hash it holds, intact = carries a valid keymaster     *)
 (*              signature for u and is unmodified                                             *)
 (* confirmed  : history - (user, password) pairs the directory has confirmed                 *)
+(* mirror     : the same records in the local offline replica of the store (filled by Sync)     *)
+(* dbOut      : the primary store does not answer: reads fall back to the replica                *)
 (* since      : history - half lifetimes (48 h) since the directory last confirmed the user's  *)
 (*              cached record (2 = the 96 hours are over)                                     *)
 (* One action per login request (Login); the environment changes the directory, the           *)
@@ -19,21 +21,26 @@ CONSTANTS Users, Passwords, Servers, AsBuilt
 Has(f) == f \in AsBuilt
 
 NoRow == [pw |-> "none", expired |-> FALSE, intact |-> TRUE, how |-> "none", age |-> 0]
-VARIABLES dirPw, srv, row, confirmed, last, since
-vars == <<dirPw, srv, row, confirmed, last, since>>
+VARIABLES dirPw, srv, row, confirmed, last, since, mirror, dbOut, mconf
+vars == <<dirPw, srv, row, confirmed, last, since, mirror, dbOut, mconf>>
+\* mconf: history - the directory's word as of the last synchronisation (the replica lags by design: what it holds is
+\* judged by what was confirmed when it was filled)
+ConfNow == IF dbOut THEN mconf ELSE confirmed
+\* the record a login reads
+Eff(u) == IF dbOut THEN mirror[u] ELSE row[u]
 
 AnyAnswers == \E i \in Servers : srv[i] = "up"
 
 \* ------------------------------------------------------------------ requirement guards
 \* (u, pw): the login attempted; accepted: what the server answered
 G_C07_Directory(u, pw)  == AnyAnswers => pw = dirPw[u]
-G_C07_Cache(u, pw)      == ~AnyAnswers => /\ row[u] # NoRow /\ row[u].pw = pw /\ row[u].intact /\ ~row[u].expired
-                                          /\ <<u, pw>> \in confirmed
+G_C07_Cache(u, pw)      == ~AnyAnswers => /\ Eff(u) # NoRow /\ Eff(u).pw = pw /\ Eff(u).intact /\ ~Eff(u).expired
+                                          /\ <<u, pw>> \in ConfNow
                                           /\ since[u] < 2             \* ... by a login the directory confirmed less than 96 hours ago
 AcceptAllowed(u, pw) == G_C07_Directory(u, pw) /\ G_C07_Cache(u, pw)
 \* the legitimate cases must work
 MustAccept(u, pw) == \/ AnyAnswers /\ pw = dirPw[u]
-                     \/ ~AnyAnswers /\ row[u] # NoRow /\ row[u].pw = pw /\ row[u].intact /\ ~row[u].expired
+                     \/ ~AnyAnswers /\ Eff(u) # NoRow /\ Eff(u).pw = pw /\ Eff(u).intact /\ ~Eff(u).expired
 
 \* effect on the cached row
 RowAfter(u, pw, accepted) ==
@@ -44,44 +51,62 @@ RowAfter(u, pw, accepted) ==
     ELSE row[u]
 
 Login(u, pw) ==
-    /\ LET acc == IF Has("CacheDecidesOnReject") /\ ~(pw = dirPw[u]) /\ AnyAnswers /\ row[u].pw = pw THEN TRUE
-                  ELSE IF Has("IgnoresExpiry") /\ ~AnyAnswers /\ row[u].pw = pw /\ row[u].intact THEN TRUE
+    /\ (dbOut => ~AnyAnswers)          \* modelled outage of the store coincides with an outage of the directory
+    /\ LET acc == IF Has("CacheDecidesOnReject") /\ ~(pw = dirPw[u]) /\ AnyAnswers /\ Eff(u).pw = pw THEN TRUE
+                  ELSE IF Has("IgnoresExpiry") /\ ~AnyAnswers /\ Eff(u).pw = pw /\ Eff(u).intact THEN TRUE
                   ELSE MustAccept(u, pw)
-       IN /\ row' = [row EXCEPT ![u] = RowAfter(u, pw, acc)]
-          /\ confirmed' = IF AnyAnswers /\ acc THEN confirmed \cup {<<u, pw>>} ELSE confirmed
+       IN /\ row' = IF dbOut THEN row ELSE [row EXCEPT ![u] = RowAfter(u, pw, acc)]
+          \* the directory's latest word on (u, pw): a rejection withdraws an earlier confirmation
+          /\ confirmed' = IF AnyAnswers /\ acc THEN confirmed \cup {<<u, pw>>}
+                          ELSE IF AnyAnswers /\ ~acc THEN confirmed \ {<<u, pw>>} ELSE confirmed
           /\ since' = IF AnyAnswers /\ acc THEN [since EXCEPT ![u] = 0] ELSE since
           /\ last' = [op |-> "login", user |-> u, pw |-> pw, accepted |-> acc,
                       allowed |-> AcceptAllowed(u, pw)]
-    /\ UNCHANGED <<dirPw, srv>>
+    /\ UNCHANGED <<dirPw, srv, mirror, dbOut, mconf>>
 
 ChangePw(u, pw) == /\ pw # dirPw[u] /\ dirPw' = [dirPw EXCEPT ![u] = pw] /\ last' = [op |-> "change", user |-> u, pw |-> pw]
-                   /\ UNCHANGED <<srv, row, confirmed, since>>
-SetServer(i, s) == /\ srv[i] # s /\ srv' = [srv EXCEPT ![i] = s] /\ last' = [op |-> "server", idx |-> i, state |-> s]
-                   /\ UNCHANGED <<dirPw, row, confirmed, since>>
+                   /\ UNCHANGED <<srv, row, confirmed, since, mirror, dbOut, mconf>>
+SetServer(i, s) == /\ srv[i] # s /\ (dbOut => s # "up") /\ srv' = [srv EXCEPT ![i] = s] /\ last' = [op |-> "server", idx |-> i, state |-> s]
+                   /\ UNCHANGED <<dirPw, row, confirmed, since, mirror, dbOut, mconf>>
 \* 96 hours pass
-Expire(u) == /\ row[u] # NoRow /\ ~row[u].expired /\ row' = [row EXCEPT ![u].expired = TRUE, ![u].age = 2]
-             /\ since' = [since EXCEPT ![u] = 2]
-             /\ last' = [op |-> "expire", user |-> u] /\ UNCHANGED <<dirPw, srv, confirmed>>
-\* 48 hours pass
 Older(a) == IF a >= 2 THEN 2 ELSE a + 1
+AgeRow(r, full) == IF r = NoRow THEN r ELSE [r EXCEPT !.age = IF full THEN 2 ELSE Older(@), !.expired = (full \/ Older(r.age) >= 2)]
+Expire(u) == /\ row[u] # NoRow /\ ~row[u].expired /\ row' = [row EXCEPT ![u] = AgeRow(@, TRUE)]
+             /\ mirror' = [mirror EXCEPT ![u] = AgeRow(@, TRUE)]
+             /\ since' = [since EXCEPT ![u] = 2]
+             /\ last' = [op |-> "expire", user |-> u] /\ UNCHANGED <<dirPw, srv, confirmed, dbOut, mconf>>
+\* 48 hours pass
 HalfLife(u) == /\ row[u] # NoRow /\ since[u] < 2
-               /\ row' = [row EXCEPT ![u].age = Older(@), ![u].expired = (Older(row[u].age) >= 2)]
+               /\ row' = [row EXCEPT ![u] = AgeRow(@, FALSE)]
+               /\ mirror' = [mirror EXCEPT ![u] = AgeRow(@, FALSE)]
                /\ since' = [since EXCEPT ![u] = Older(@)]
-               /\ last' = [op |-> "halflife", user |-> u] /\ UNCHANGED <<dirPw, srv, confirmed>>
+               /\ last' = [op |-> "halflife", user |-> u] /\ UNCHANGED <<dirPw, srv, confirmed, dbOut, mconf>>
 \* an attacker with write access to the store (but without the signing key)
 TamperKinds == {"swapsubject", "alterhash", "extendcolumn", "resign"}
 Tamper(u, how) ==
     /\ row[u] # NoRow
     /\ row' = [row EXCEPT ![u] = CASE how = "extendcolumn" -> [@ EXCEPT !.how = how]   \* the signed expiry still rules
                                    [] OTHER -> [@ EXCEPT !.intact = FALSE, !.how = how]]
-    /\ last' = [op |-> "tamper", user |-> u, how |-> how] /\ UNCHANGED <<dirPw, srv, confirmed, since>>
+    /\ last' = [op |-> "tamper", user |-> u, how |-> how] /\ UNCHANGED <<dirPw, srv, confirmed, since, mirror, dbOut, mconf>>
+\* the periodic copy of the primary store into the replica: exactly the unexpired records
+Sync == /\ ~dbOut
+        /\ mirror' = [u \in Users |-> IF Has("SyncKeepsEvicted") /\ row[u] = NoRow THEN mirror[u]
+                                       ELSE IF row[u] # NoRow /\ ~row[u].expired THEN row[u] ELSE NoRow]
+        /\ mconf' = confirmed
+        /\ last' = [op |-> "sync"] /\ UNCHANGED <<dirPw, srv, row, confirmed, since, dbOut>>
+DbOutage == /\ ~dbOut /\ ~AnyAnswers /\ dbOut' = TRUE /\ last' = [op |-> "dboutage"]
+            /\ UNCHANGED <<dirPw, srv, row, confirmed, since, mirror, mconf>>
+DbRecover == /\ dbOut /\ dbOut' = FALSE /\ last' = [op |-> "dbrecover"]
+             /\ UNCHANGED <<dirPw, srv, row, confirmed, since, mirror, mconf>>
 
 Init == /\ dirPw \in [Users -> Passwords] /\ srv = [i \in Servers |-> "up"] /\ row = [u \in Users |-> NoRow]
         /\ confirmed = {} /\ last = [op |-> "init"] /\ since = [u \in Users |-> 0]
+        /\ mirror = [u \in Users |-> NoRow] /\ dbOut = FALSE /\ mconf = {}
 Next == \/ \E u \in Users, pw \in Passwords : Login(u, pw) \/ ChangePw(u, pw)
         \/ \E i \in Servers, s \in {"up", "err", "down"} : SetServer(i, s)
         \/ \E u \in Users : Expire(u) \/ HalfLife(u)
         \/ \E u \in Users, h \in TamperKinds : Tamper(u, h)
+        \/ Sync \/ DbOutage \/ DbRecover
 Spec == Init /\ [][Next]_vars
 
 \* ------------------------------------------------------------------ the property
